@@ -47,6 +47,9 @@ type DAGService struct {
 
 	startTime time.Time
 	totalSize uint64
+
+	// failed remembers the first block that could not be ingested
+	failed error
 }
 
 // New returns a new ClusterDAGService, which uses the given rpc client to perform
@@ -68,16 +71,31 @@ func New(rpc *rpc.Client, opts api.PinOptions, out chan<- *api.AddedOutput) *DAG
 // destination peers.
 func (dgs *DAGService) Add(ctx context.Context, node ipld.Node) error {
 	// FIXME: This will grow in memory
+	// The importer does not look at the result of every Add (the first
+	// chunk of a multi-chunk file, for one). A block that could not be
+	// ingested must fail the whole add, not only its own call.
+	if dgs.failed != nil {
+		return dgs.failed
+	}
+
 	if !dgs.addedSet.Visit(node.Cid()) {
 		return nil
 	}
 
-	return dgs.ingestBlock(ctx, node)
+	err := dgs.ingestBlock(ctx, node)
+	if err != nil {
+		dgs.failed = err
+	}
+	return err
 }
 
 // Finalize finishes sharding, creates the cluster DAG and pins it along
 // with the meta pin for the root node of the content.
 func (dgs *DAGService) Finalize(ctx context.Context, dataRoot cid.Cid) (cid.Cid, error) {
+	if dgs.failed != nil {
+		return dataRoot, dgs.failed
+	}
+
 	lastCid, err := dgs.flushCurrentShard(ctx)
 	if err != nil {
 		return lastCid, err
